@@ -65,6 +65,11 @@ CHECKS = {
                      "truncation point inside a record) is extended by six hostile tails, opened, extended by a commit and reopened.",
                 note="tails: 64 zero bytes, 37 pseudo-random bytes, length 0x7ffffff0, header announcing more bytes than follow, "
                      "complete record with wrong checksum, bit flip in the last byte"),
+    "C30": dict(ref="5 C30", tech="TLA+ trace validation (CypherTrace.BulkCheck + CypherSem reference) of bulk-loaded and transaction-loaded databases",
+                text="Seeded node / relationship sets are loaded once by the bulk loader and once through transactions; the driver echoes the "
+                     "input, TLC builds the expected graph from it and requires both dumps to equal it (up to node identity, both traversal "
+                     "directions agreeing), and the same generated read queries run on both databases, each judged against the reference.",
+                note="single-label nodes (the loader's input format)"),
     "C33": dict(ref="5 C33", tech="TLA+ trace validation (CypherTrace.TLim): limited runs against the unlimited run of the same query",
                 text="Queries with large intermediates run without limits and under 5 limit settings each; TLC requires every limited run to "
                      "return the same bag of rows or a resource-limit error, with the reported observed count of per-row limits <= limit+1 "
@@ -93,6 +98,12 @@ CHECKS = {
                      "snapshot-first; every behaviour of the 2-thread model is forced on the real ndb_execute_write for counter increments "
                      "and a conditional create, and TLC checks final value = initial + successful statements.",
                 note="the order observed in the code is recorded in the evidence"),
+    "C10": dict(ref="5 C10", tech="TLC model checking of Handles.tla + TLA+ trace validation (SchedTrace.THandles) of multi-handle executions",
+                text="Handles.tla models two handles over one disk with the refusal of a second open as a constant: TLC proves unique, dense "
+                     "ids with refusal and finds the collision without; handle scenarios (same process and a child process; commits, "
+                     "compaction, close in both orders) run on the real engine and TLC requires every second open to be refused, the final "
+                     "open to succeed and every acknowledged node to be present.",
+                note="7 scenarios"),
     "C11": dict(ref="5 C11", tech="TLA+ reference evaluator (CypherSem.tla) evaluated by TLC on recorded executions (trace validation, CypherTrace)",
                 text="CypherSem.tla is an independent reference evaluator of the read fragment (pattern matching with relationship "
                      "uniqueness over the relationship bag, OPTIONAL MATCH, WHERE in three-valued logic, WITH, UNWIND, DISTINCT, "
@@ -136,7 +147,7 @@ CHECKS = {
 }
 
 # properties whose check has been run green on the unchanged tree
-ENABLED = ["C01", "C02", "C03", "C04", "C05", "C06", "C07", "C08", "C09", "C11", "C12", "C13", "C14", "C15", "C17", "C19", "C20", "C21", "C22", "C23", "C24", "C26", "C27", "C28", "C33"]
+ENABLED = ["C01", "C02", "C03", "C04", "C05", "C06", "C07", "C08", "C09", "C10", "C11", "C12", "C13", "C14", "C15", "C17", "C19", "C20", "C21", "C22", "C23", "C24", "C26", "C27", "C28", "C30", "C33"]
 
 NOT_APPLICABLE = {
     "C16": "quantifies over arbitrary byte strings and resource exhaustion; no state machine to specify, a fuzzer's job (DESIGN.md 6)",
